@@ -2236,6 +2236,8 @@ def run_auth_scripts(
             )
             tape.contracts = contracts
             tape.plugins = plugins
+            if 'returned' in cache:
+                del cache['returned']
             run_tape(tape, stack, cache)
             assert tape.has_terminated()
 
